@@ -488,8 +488,11 @@ def foreign_items(kinds, model):
 # ------------------------------------------------------------------------------------------ cbindgen core
 
 class Lib:
-    def __init__(self, items, functions, lang):
+    def __init__(self, items, functions, lang, vertical=False):
         self.lang = lang
+        # function-pointer fields longer than the line length written one argument per line (newer cbindgen releases lay
+        # out over-long function-pointer declarators vertically; the published header of the pinned release does not)
+        self.vertical = vertical
         self.functions = functions
         self.items = OrderedDict(items)
         if lang == "c":
@@ -680,12 +683,21 @@ class Lib:
             return ""
         return "/**\n" + "".join(" *%s\n" % l for l in it["doc"]) + " */\n"
 
+    def field_text(self, t, f):
+        line = "    %s;\n" % self.decl(t, f)
+        if not self.vertical or t[0] != "fn" or len(line) <= 101 or len(t[2]) < 2:
+            return line
+        cut = line.index(")(") + 2
+        head = line[:cut]
+        args = [self.decl(ty, n or "") for n, ty in t[2]]
+        return head + (",\n" + " " * len(head)).join(args) + ");\n"
+
     def item_text(self, it):
         d = self.doc(it)
         if self.lang == "c":
             n = it["name"]
             if it["kind"] == "struct":
-                body = "".join("    %s;\n" % self.decl(t, f) for f, t in it["fields"])
+                body = "".join(self.field_text(t, f) for f, t in it["fields"])
                 return d + "typedef struct %s {\n%s} %s;\n" % (n, body, n)
             if it["kind"] == "opaque":
                 return d + "typedef struct %s %s;\n" % (n, n)
@@ -696,7 +708,7 @@ class Lib:
             return d + t + "struct %s;\n" % n
         t = "template<%s>\n" % ", ".join("typename " + g for g in it["generics"]) if it["generics"] else ""
         if it["kind"] == "struct":
-            body = "".join("    %s;\n" % self.decl(ty, f) for f, ty in it["fields"])
+            body = "".join(self.field_text(ty, f) for f, ty in it["fields"])
             return d + t + "struct %s {\n%s};\n" % (n, body)
         return d + t + "using %s = %s;\n" % (n, self.decl(it["aliased"], ""))
 
@@ -711,7 +723,7 @@ class Lib:
 def render(model, lang):
     """-> dict(text=header, foreign=[verbatim foreign declaration texts in order], lib=Lib)"""
     items, functions = build_library(model)
-    lib = Lib(items, functions, lang)
+    lib = Lib(items, functions, lang, vertical=model.get("fnptr_layout") == "vertical")
     out = []
     guard = model.get("guard")
     if guard:
